@@ -43,6 +43,12 @@ Theorems (coq/theories/C08/Property.v, all "Closed under the global context"):
                                  file are not identified in closed form with `image` for every tensor kind (see
                                  Proofs6 for what is proved about `image`); never a mixture/truncation is proved
                                  in full.
+  C08_new_is_image_partial       replaced_by_complete .. d m -> d = image ..  when no ExternalTensor is among the
+                                 written tensors (in-memory, lazy, third-party multi-chunk tensors): seek+write
+                                 composition (write_at_app) through every chunk.
+  C08_crash_atomic_image_partial the full-strength statement (old node, or exactly `image` and only if os.replace is
+                                 among the first k effects) on that sub-domain.  MISSING: the same for
+                                 ExternalTensor inputs (the ARead/AWriteBuf chunk-copy loop); tie only.
   C08_interrupt_atomic_partial   the same for any kill point combined with any single injected fault.
   C08_exception_clean            exception, no kill, fault not in the cleanup: the WHOLE directory equals the
                                  initial one (dest = old, no temp file/dir, nothing else touched), validity
@@ -51,7 +57,7 @@ Theorems (coq/theories/C08/Property.v, all "Closed under the global context"):
   C08_sharded_never_overwrites   run_sharded under any interruption leaves every pre-existing path unchanged.
   C08_invalidate_only_if_replaced  invalid afterwards -> invalid before, or samefile(dest) and dest replaced.
   C08_bystanders_untouched       a single-file save never changes any other pre-existing path.
-Model choices worth knowing: the control flow of the plan is resolved on the initial file system (islink,
+Model choices worth knowing: an empty write changes nothing (write_at f off [] = f), a hole reads as zeros; the control flow of the plan is resolved on the initial file system (islink,
 samefile, exists are re-evaluated dynamically only for the logged result); the tie compares both, so a
 divergence shows up as a trace mismatch.  Hard links are independent files in the model (true as long as
 nothing writes in place - which is what the trace equality checks).  Parallel writer (max_workers>1): not
